@@ -19,6 +19,7 @@ import Tengo.Drivers.C11
 import Tengo.Drivers.C14
 import Tengo.Drivers.C06
 import Tengo.Drivers.C08
+import Tengo.Drivers.C04
 /-!
 Line-protocol driver: one S-expression `(cmd arg…)` per input line, one answer
 line per input line. The only `partial def` of the project is the IO loop.
@@ -45,7 +46,8 @@ def allHandlers : List (String × (List Sexp → String)) :=
   Tengo.Drivers.C11.handlers ++
   Tengo.Drivers.C14.handlers ++
   Tengo.Drivers.C06.handlers ++
-  Tengo.Drivers.C08.handlers
+  Tengo.Drivers.C08.handlers ++
+  Tengo.Drivers.C04.handlers
 
 def answer (line : String) : String :=
   match Sexp.parse line with
